@@ -3,7 +3,5 @@ CONSTANTS
   Tier = "thorough"
   Emit = "all"
   Laws = "all"
-INVARIANT InvRefLaws
-INVARIANT InvRefPermInvariant
-INVARIANT InvAlg
+INVARIANT InvCase
 CHECK_DEADLOCK FALSE
